@@ -93,8 +93,26 @@ func Schema(t *rapid.T, o *SchemaOpts, depth int) ref.Schema {
 	case "enum":
 		s := ref.Schema{Kind: "enum", Name: o.name(t, "en"), Namespace: o.namespace(t)}
 		n := rapid.IntRange(1, 4).Draw(t, "nsym")
+		if rapid.IntRange(0, 3).Draw(t, "manySymbols") == 0 {
+			n = rapid.IntRange(9, 20).Draw(t, "nsymMany")
+		}
 		for i := 0; i < n; i++ {
 			s.Symbols = append(s.Symbols, fmt.Sprintf("S%d", i))
+		}
+		if rapid.Bool().Draw(t, "unsortedSymbols") {
+			// symbol order is part of the schema (it defines the encoding): not sorted, not grouped
+			names := []string{"DIAMONDS", "spades", "Clubs", "HEARTS", "z9", "A", "mid", "B2", "b2", "_x", "Q", "k", "ACE", "ten", "Nine", "eight", "SEVEN", "six", "Five", "four"}
+			for i := range s.Symbols {
+				s.Symbols[i] = names[(i*7+n)%len(names)]
+			}
+			seen := map[string]bool{}
+			for i, sym := range s.Symbols {
+				for seen[sym] {
+					sym += "_"
+				}
+				seen[sym] = true
+				s.Symbols[i] = sym
+			}
 		}
 		return s
 	}
